@@ -4,6 +4,7 @@ import (
 	"encoding/json"
 	"flag"
 	"fmt"
+	"time"
 
 	"github.com/caddyserver/caddy/v2"
 	"github.com/mholt/caddy-l4/modules/l4proxy"
@@ -16,12 +17,15 @@ import (
 // calls Cleanup on unload and after a failed Provision - exactly what the model assumes.
 
 type peersStep struct {
-	Op   string     `json:"op"` // "load" | "unload"
-	H    string     `json:"h"`
-	Dial [][]string `json:"dial,omitempty"` // per upstream
+	Op     string     `json:"op"` // "load" | "unload" | "wait" (several active-check intervals) | "up" (the backend starts accepting)
+	H      string     `json:"h"`
+	Dial   [][]string `json:"dial,omitempty"` // per upstream
+	Active bool       `json:"active,omitempty"`
 }
 
-func runPeers(id string, steps []peersStep, addrs []string) (map[string]any, error) {
+const peersActiveInterval = 40 * time.Millisecond
+
+func runPeers(id string, steps []peersStep, addrs []string, backend *refusedPort) (map[string]any, error) {
 	base, err := vh.CaddyContext()
 	if err != nil {
 		return nil, err
@@ -30,6 +34,11 @@ func runPeers(id string, steps []peersStep, addrs []string) (map[string]any, err
 		h      *l4proxy.Handler
 		cancel func()
 		dial   []string
+		active bool
+	}
+	up := map[string]bool{}
+	if backend != nil {
+		up[backend.Addr()] = false
 	}
 	handlers := map[string]*live{}
 	var hist []map[string]any
@@ -43,20 +52,31 @@ func runPeers(id string, steps []peersStep, addrs []string) (map[string]any, err
 				ups = append(ups, map[string]any{"dial": d})
 				flat = append(flat, d...)
 			}
-			raw, _ := json.Marshal(map[string]any{"upstreams": ups})
+			cfg := map[string]any{"upstreams": ups}
+			if st.Active {
+				cfg["health_checks"] = map[string]any{"active": map[string]any{"interval": peersActiveInterval.String(), "timeout": "200ms"}}
+			}
+			raw, _ := json.Marshal(cfg)
 			ctx, cancel := caddy.NewContext(base)
 			mod, err := ctx.LoadModuleByID("layer4.handlers.proxy", raw)
 			if err != nil {
 				ev["ok"], ev["err"] = false, err.Error()
 				cancel()
 			} else {
-				handlers[st.H] = &live{h: mod.(*l4proxy.Handler), cancel: cancel, dial: flat}
+				handlers[st.H] = &live{h: mod.(*l4proxy.Handler), cancel: cancel, dial: flat, active: st.Active}
 			}
 		case "unload":
 			if l, ok := handlers[st.H]; ok {
 				l.cancel() // cancelling the context unloads its modules: Cleanup
 				delete(handlers, st.H)
 			}
+		case "wait":
+			time.Sleep(6 * peersActiveInterval)
+		case "up":
+			if err := backend.Up(); err != nil {
+				return nil, err
+			}
+			up[backend.Addr()] = true
 		}
 		// the state after the step
 		refs := map[string]int{}
@@ -68,11 +88,30 @@ func runPeers(id string, steps []peersStep, addrs []string) (map[string]any, err
 		}
 		holds := map[string]any{}
 		uses := map[string]any{}
+		down := map[string]any{}
+		active := []string{}
 		for name, l := range handlers {
 			holds[name] = l4proxy.VerifHandlerPeerIDs(l.h)
 			uses[name] = l.dial
+			d := map[string]bool{}
+			_, _, uh := l4proxy.VerifHandlerCounters(l.h)
+			for i, u := range l.h.Upstreams {
+				for j, a := range u.Dial {
+					if i < len(uh) && j < len(uh[i]) {
+						d[a] = d[a] || uh[i][j]
+					}
+				}
+			}
+			down[name] = d
+			if l.active {
+				active = append(active, name)
+			}
 		}
-		ev["refs"], ev["pool"], ev["holds"], ev["uses"] = refs, pool, holds, uses
+		upNow := map[string]bool{}
+		for a, v := range up {
+			upNow[a] = v
+		}
+		ev["refs"], ev["pool"], ev["holds"], ev["uses"], ev["down"], ev["active"], ev["up"] = refs, pool, holds, uses, down, active, upNow
 		hist = append(hist, ev)
 	}
 	for _, l := range handlers {
@@ -101,7 +140,24 @@ func init() {
 				{Op: "load", H: "h3", Dial: [][]string{{x}}}, {Op: "unload", H: "h1"}, {Op: "unload", H: "h3"}},
 		}
 		for _, name := range []string{"reload", "twice", "failed-load", "failed-load-late"} {
-			tr, err := runPeers(fmt.Sprintf("peers:%s", name), scen[name], []string{x, y})
+			tr, err := runPeers(fmt.Sprintf("peers:%s", name), scen[name], []string{x, y}, nil)
+			if err != nil {
+				return err
+			}
+			lw.Write(tr)
+		}
+		// a reload that drops (keeps) the active health checks while the backend is down; the backend then returns
+		for _, keep := range []bool{false, true} {
+			b, err := newRefusedPort()
+			if err != nil {
+				return err
+			}
+			z := b.Addr()
+			name := map[bool]string{false: "reload-drops-active", true: "reload-keeps-active"}[keep]
+			steps := []peersStep{{Op: "load", H: "h1", Dial: [][]string{{z}}, Active: true}, {Op: "wait"},
+				{Op: "load", H: "h3", Dial: [][]string{{z}}, Active: keep}, {Op: "unload", H: "h1"}, {Op: "up"}, {Op: "wait"}, {Op: "unload", H: "h3"}}
+			tr, err := runPeers("peers:"+name, steps, []string{z}, b)
+			b.Close()
 			if err != nil {
 				return err
 			}
